@@ -37,6 +37,7 @@ def arithLine (line : String) : String :=
       match op with
       | "neg" => "ok " ++ numToWire (opNegNum a)
       | "abs" => "ok " ++ numToWire (absNum a)
+      | "len" => "ok " ++ numToWire (absNum a)
       | "tofloat" => "ok " ++ numToWire a.toFlt
       | _ => "?op"
     | _ => "?parse"
